@@ -83,11 +83,9 @@ pub struct FramebufferTag {
     bpp: u8,
 
     /// The type of framebuffer. See [`FramebufferTypeId`].
-    // TODO: Strictly speaking this causes UB for invalid values. However, no
-    //  sane bootloader puts something illegal there at the moment. When we
-    //  refactor this (newtype pattern?), we should also streamline other
-    //  parts in the code base accordingly.
-    framebuffer_type: FramebufferTypeId,
+    // Stored as raw byte: materializing an unknown value as
+    // `FramebufferTypeId` would be UB.
+    framebuffer_type: u8,
 
     _padding: u16,
 
@@ -168,9 +166,7 @@ impl FramebufferTag {
     pub fn buffer_type(&self) -> Result<FramebufferType, UnknownFramebufferType> {
         let mut reader = Reader::new(&self.buffer);
 
-        // TODO: We should use the newtype pattern instead or so to properly
-        //  solve this.
-        let fb_type_raw = self.framebuffer_type as u8;
+        let fb_type_raw = self.framebuffer_type;
         let fb_type = FramebufferTypeId::try_from(fb_type_raw)?;
 
         match fb_type {
